@@ -445,9 +445,11 @@ func (c *Ctx) nilResultUse(rule string) {
 		for _, call := range Calls(fn) {
 			errV := ErrResult(call)
 			sig := call.Common().Signature()
-			if errV == nil || sig.Results().Len() < 2 {
+			if sig.Results().Len() < 2 || !IsErrorType(sig.Results().At(sig.Results().Len()-1).Type()) {
 				continue
 			}
+			// errV == nil from here on: the caller never takes the error out of the
+			// result tuple, so no branch can have looked at it
 			g := StaticCallee(call)
 			storage := call.Common().IsInvoke() && strings.HasSuffix(call.Common().Value.Type().String(), "Storer")
 			if !storage && (g == nil || !c.inRepo(g)) {
@@ -490,7 +492,7 @@ func (c *Ctx) nilResultUse(rule string) {
 					// found nil, or found equal to one particular sentinel (a contract of its
 					// own: errNoTOTPEnabled comes with the user); a bare "some error" does
 					// not, it is exactly the case in which the value is nil
-					looked := HasFact(FactsAtInstr(ref), func(f Fact) bool {
+					looked := errV != nil && HasFact(FactsAtInstr(ref), func(f Fact) bool {
 						if !mentionsValue(f.Cond, errV, 0) {
 							return false
 						}
@@ -834,4 +836,446 @@ func (c *Ctx) deferredStorageError(rule string) {
 		}
 	}
 	r.Extra["defer_go_statements"] = n
+}
+
+// totpValidateDefaults: a TOTP code is "currently valid" in the sense of
+// totp.Validate: period 30 s, one period of skew, six digits, checked against
+// the present instant. A call of totp.ValidateCustom (what a test seam's
+// default tends to be) must spell out exactly that: a larger skew or period
+// accepts codes minutes old, a pinned instant accepts one code forever.
+func (c *Ctx) totpValidateDefaults(rule string) {
+	r := c.R
+	for _, fn := range c.P.Funcs {
+		if !c.inRepo(fn) || strings.HasSuffix(pkgOf(fn), "/mocks") {
+			continue
+		}
+		for _, call := range CallsTo(fn, fnTOTPValidateCustom) {
+			name := FuncName(fn)
+			pos := posf(c, call.(ssa.Instruction))
+			// the instant
+			okNow := false
+			tv := Arg(call, 2)
+			for d := 0; d < 4 && tv != nil; d++ {
+				tc, _ := CallOf(tv)
+				if tc == nil {
+					break
+				}
+				switch Callee(tc) {
+				case "time.Now":
+					okNow = true
+					tv = nil
+				case "(time.Time).UTC", "(time.Time).Local":
+					tv = Arg(tc, 0)
+				default:
+					tv = nil
+				}
+			}
+			r.Check(okNow, rule, name, "ValidateCustom.t = time.Now()", pos, "checked against the present instant", "the code is not validated against the present instant (time.Now()): a code stays valid, or never becomes valid")
+			// the options
+			fields := map[string]ssa.Value{}
+			readable := false
+			if ld, ok := Arg(call, 3).(*ssa.UnOp); ok && ld.Op == token.MUL {
+				if a, isA := ld.X.(*ssa.Alloc); isA && a.Referrers() != nil {
+					readable = true
+					for _, ref := range *a.Referrers() {
+						switch x := ref.(type) {
+						case *ssa.FieldAddr:
+							if x.Referrers() == nil {
+								continue
+							}
+							for _, rr := range *x.Referrers() {
+								if st, isSt := rr.(*ssa.Store); isSt && st.Addr == ssa.Value(x) {
+									if _, dup := fields[fieldName(x)]; dup {
+										readable = false
+									}
+									fields[fieldName(x)] = st.Val
+								}
+							}
+						case *ssa.Store:
+							if x.Addr == ssa.Value(a) {
+								readable = false
+							}
+						}
+					}
+				}
+			}
+			if !readable {
+				r.Unknown(rule, name, "ValidateCustom.opts", pos, "the validation options are not a local literal; period, skew and digits cannot be read off")
+				continue
+			}
+			num := func(f string, def int64) (int64, bool) {
+				v, ok := fields[f]
+				if !ok {
+					return def, true
+				}
+				n, isC := ConstInt(v)
+				return n, isC
+			}
+			period, okP := num("Period", 30)
+			skew, okS := num("Skew", 0)
+			digits, okD := num("Digits", 6)
+			r.Check(okP && (period == 30 || period == 0), rule, name, "ValidateCustom.Period", pos, "30 s steps", sprintf("codes are validated with a period of %d s instead of 30: the window in which a code counts as current is not the authenticator's", period))
+			r.Check(okS && skew >= 0 && skew <= 1, rule, name, "ValidateCustom.Skew", pos, "at most one period of skew", sprintf("codes up to %d periods old (or ahead) are accepted: Skew counts periods, not seconds — a code is 'currently valid' for minutes", skew))
+			r.Check(okD && digits == 6, rule, name, "ValidateCustom.Digits", pos, "six digits", sprintf("codes are validated with %d digits", digits))
+		}
+	}
+}
+
+// authFailSubject: the request fired on After(EventAuthFail) carries, on every
+// way of arriving, the user whose credential was just rejected: lock counts the
+// failure against the user it finds in the request, and with none there (the
+// half-authenticated step of a 2FA login has no session user either) the
+// failure is counted against nobody.
+func (c *Ctx) authFailSubject(rule string) {
+	r := c.R
+	fail := c.Event("EventAuthFail")
+	n := 0
+	for _, fn := range c.P.Funcs {
+		if !c.inRepo(fn) || strings.HasSuffix(pkgOf(fn), "/mocks") {
+			continue
+		}
+		for _, f := range Fires(fn) {
+			if f.Before || !f.Const || f.Event != fail {
+				continue
+			}
+			n++
+			ci := c.ctxChain(f.Req, 0)
+			v, must := ci.must["user"]
+			ok := must && v != nil && !IsNilConst(v)
+			r.Check(ok, rule, FuncName(fn), "FireAfter(EventAuthFail).request", posf(c, f.Call), "carries the user whose credential failed", "the request handed to the failure handlers does not carry the rejected user in its context on every path: lock looks the user up from the request and counts the failure against whoever that is — or fails to find anyone")
+		}
+	}
+	if n == 0 {
+		r.Unknown(rule, "ab", "FireAfter(EventAuthFail)", "-", "no failure event site found")
+	}
+}
+
+// redirectorWrites: the shipped redirector answers every request it is handed:
+// each way through it reaches a write of the response (http.Redirect,
+// WriteHeader, Write) — which is what delivers the session and cookie changes
+// the handler queued — unless a component the integrator supplies (an
+// interface method: the renderer) reported an error. A return in front of the
+// write with an error the redirector made itself, or got from parsing the
+// request, leaves an answer without the queued changes: a logout that removed
+// nothing.
+func (c *Ctx) redirectorWrites(rule string) {
+	r := c.R
+	n := 0
+	for _, fn := range c.P.Funcs {
+		if pkgOf(fn) != "ab/defaults" || fn.Signature.Recv() == nil || len(fn.Blocks) == 0 {
+			continue
+		}
+		if !strings.Contains(fn.Signature.Recv().Type().String(), "defaults.Redirector") {
+			continue
+		}
+		// functions that are handed the response writer
+		hasW := false
+		for _, p := range fn.Params {
+			if p.Type().String() == "net/http.ResponseWriter" {
+				hasW = true
+			}
+		}
+		if !hasW {
+			continue
+		}
+		n++
+		name := FuncName(fn)
+		writes := func(i ssa.Instruction) bool {
+			call, ok := i.(ssa.CallInstruction)
+			if !ok {
+				return false
+			}
+			cc := call.Common()
+			if cc.IsInvoke() {
+				switch cc.Method.Name() {
+				case "WriteHeader", "Write":
+					return true
+				}
+				return false
+			}
+			switch Callee(call) {
+			case "net/http.Redirect", "net/http.Error":
+				return true
+			}
+			// a method of the redirector that is handed the writer answers itself (decided there)
+			if g := StaticCallee(call); g != nil && pkgOf(g) == "ab/defaults" && g.Signature.Recv() != nil && strings.Contains(g.Signature.Recv().Type().String(), "defaults.Redirector") {
+				return true
+			}
+			// a function value selected among such methods
+			if _, isFn := cc.Value.Type().Underlying().(*types.Signature); isFn && StaticCallee(call) == nil {
+				for _, a := range cc.Args {
+					if a.Type().String() == "net/http.ResponseWriter" {
+						return true
+					}
+				}
+			}
+			return false
+		}
+		q := PathQuery{StartBlock: fn.Blocks[0], Cut: writes, GoalP: func(i ssa.Instruction, pv PathView) bool {
+			ret, ok := i.(*ssa.Return)
+			if !ok {
+				return false
+			}
+			if len(ret.Results) == 0 {
+				return true
+			}
+			ev := ret.Results[len(ret.Results)-1]
+			if !IsErrorType(ev.Type()) {
+				return true
+			}
+			if isNil, known := pv.NilKnown(ev); known && isNil {
+				return true
+			}
+			// an error of an integrator-supplied component may end the request
+			os := c.Origins(ev)
+			if len(os) == 0 {
+				return true
+			}
+			for _, o := range os {
+				ic, isCall := o.V.(ssa.CallInstruction)
+				if o.Kind != "call" || !isCall || !ic.Common().IsInvoke() {
+					return true
+				}
+			}
+			return false
+		}}
+		if p := q.Find(); p != nil {
+			r.Bad(rule, name, "every answer writes the response", posf(c, p[len(p)-1]), "the redirector can return without having written the response, for a reason other than a failure of the renderer: what the handler queued for the session and the cookies (a logout's deletions) is never delivered", c.P.DescribePath(p)...)
+		} else {
+			r.Ok(rule, name, "every answer writes the response", c.P.Pos(fn.Pos()), "each way through reaches a write of the response or ends with a component's error")
+		}
+	}
+	if n < 2 {
+		r.Unknown(rule, "ab/defaults", "redirector", "-", sprintf("expected the shipped redirector's answering methods, found %d", n))
+	}
+}
+
+// perInstanceWiring: what a module's Init/Setup registers — event handlers,
+// routes — belongs to the Authboss instance it is given. A registration that
+// runs inside (*sync.Once).Do (or behind a package-level flag) happens for the
+// first instance of the process only; every further instance runs without that
+// handler.
+func (c *Ctx) perInstanceWiring(rule string) {
+	r := c.R
+	n := 0
+	registers := func(f *ssa.Function) ssa.CallInstruction {
+		var found ssa.CallInstruction
+		seen := map[*ssa.Function]bool{}
+		var visit func(g *ssa.Function, d int)
+		visit = func(g *ssa.Function, d int) {
+			if g == nil || seen[g] || d > 3 || found != nil {
+				return
+			}
+			seen[g] = true
+			for _, call := range Calls(g) {
+				switch Callee(call) {
+				case "(*ab.Events).Before", "(*ab.Events).After":
+					found = call
+					return
+				}
+				cc := call.Common()
+				if cc.IsInvoke() && strings.HasSuffix(cc.Value.Type().String(), ".Router") {
+					found = call
+					return
+				}
+				if h := StaticCallee(call); h != nil && c.inRepo(h) {
+					visit(h, d+1)
+				}
+			}
+			for _, an := range g.AnonFuncs {
+				visit(an, d+1)
+			}
+		}
+		visit(f, 0)
+		return found
+	}
+	for _, fn := range c.P.Funcs {
+		if !c.inRepo(fn) || strings.HasSuffix(pkgOf(fn), "/mocks") {
+			continue
+		}
+		for _, call := range Calls(fn) {
+			if Callee(call) != "(*sync.Once).Do" {
+				continue
+			}
+			var body *ssa.Function
+			switch x := Arg(call, 1).(type) {
+			case *ssa.MakeClosure:
+				body, _ = x.Fn.(*ssa.Function)
+			case *ssa.Function:
+				body = x
+			}
+			if body == nil {
+				continue
+			}
+			n++
+			if reg := registers(body); reg != nil {
+				r.Bad(rule, FuncName(fn), "sync.Once around "+Callee(reg), posf(c, call), "a handler or route is registered inside sync.Once.Do: it is registered for the first Authboss instance of the process only, every further instance runs without it")
+			}
+		}
+	}
+	r.Extra["once_sites"] = n
+	r.Ok(rule, "all packages", "registrations outside sync.Once", "-", sprintf("%d sync.Once sites examined; none wraps the registration of a handler or route (violations are listed individually)", n))
+}
+
+// confirmPairChecked: the shipped form validator accepts a non-empty field
+// that has a confirmation partner only when the two submitted values are
+// equal: from the read of the main value, every way to the end of Validate
+// either records an error, found the main value empty, or has established
+// main == confirm. A check that is skipped when the confirmation key is
+// absent from the body accepts a password nobody confirmed.
+func (c *Ctx) confirmPairChecked(rule string) {
+	r := c.R
+	fn := c.P.FuncOpt("(ab/defaults.HTTPFormValidator).Validate")
+	if fn == nil || len(fn.Blocks) == 0 {
+		r.Unknown(rule, "ab/defaults", "HTTPFormValidator.Validate", "-", "validator not found")
+		return
+	}
+	name := FuncName(fn)
+	pairLookup := func(v ssa.Value) *ssa.Lookup {
+		if ex, ok := v.(*ssa.Extract); ok {
+			v = ex.Tuple
+		}
+		lk, ok := v.(*ssa.Lookup)
+		if !ok || fieldLoadName(lk.X) != "Values" {
+			return nil
+		}
+		ld, ok := lk.Index.(*ssa.UnOp)
+		if !ok {
+			return nil
+		}
+		ia, ok := ld.X.(*ssa.IndexAddr)
+		if !ok || fieldLoadName(ia.X) != "ConfirmFields" {
+			return nil
+		}
+		return lk
+	}
+	var lks []*ssa.Lookup
+	for _, b := range fn.Blocks {
+		for _, in := range b.Instrs {
+			if v, ok := in.(ssa.Value); ok {
+				if lk := pairLookup(v); lk != nil && ssa.Value(lk) == v {
+					lks = append(lks, lk)
+				}
+			}
+		}
+	}
+	if len(lks) < 2 {
+		r.Unknown(rule, name, "confirm pair", c.P.Pos(fn.Pos()), sprintf("expected the reads of a field and of its confirmation partner, found %d", len(lks)))
+		return
+	}
+	// the main value: the read that dominates the others
+	main := lks[0]
+	for _, lk := range lks[1:] {
+		if Dominates(lk.Block(), main.Block()) && lk.Block() != main.Block() {
+			main = lk
+		}
+	}
+	isMain := func(v ssa.Value) bool { return pairLookup(v) == main }
+	q := PathQuery{From: main, Cut: func(i ssa.Instruction) bool {
+		call, ok := i.(*ssa.Call)
+		if !ok {
+			return false
+		}
+		b, isB := call.Call.Value.(*ssa.Builtin)
+		return isB && b.Name() == "append"
+	}, PruneFact: func(f Fact) bool {
+		rel := f.Rel()
+		if rel.Op != token.EQL {
+			return false
+		}
+		// main == confirm
+		lx, ly := pairLookup(rel.X), pairLookup(rel.Y)
+		if lx != nil && ly != nil && lx != ly && (lx == main || ly == main) {
+			return true
+		}
+		// len(main) == 0 / main == ""
+		if k, isC := ConstInt(rel.Y); isC && k == 0 {
+			if sv := StrLenValue(rel.X); sv != nil && isMain(sv) {
+				return true
+			}
+		}
+		if s, isC := ConstStr(rel.Y); isC && s == "" && isMain(rel.X) {
+			return true
+		}
+		return false
+	}, Goal: func(i ssa.Instruction) bool {
+		_, ok := i.(*ssa.Return)
+		return ok
+	}}
+	if p := q.Find(); p != nil {
+		r.Bad(rule, name, "main == confirm or an error", posf(c, p[len(p)-1]), "a non-empty field with a confirmation partner can pass validation without the two submitted values having been found equal (for example when the confirmation is absent from the body): the account is created with a password nobody confirmed", c.P.DescribePath(p)...)
+	} else {
+		r.Ok(rule, name, "main == confirm or an error", posf(c, main), "every way on from the read of the field records an error, found it empty, or found it equal to its confirmation")
+	}
+}
+
+// storedListInPlace: a list the storage layer hands out through a user
+// accessor (secondary e-mail addresses, codes) is the integrator's object: it
+// is read and copied, never grown or edited in place. append with it as the
+// destination, slices.Insert/Delete/Compact/Sort/Reverse and sort.Strings write
+// into its backing array when there is spare capacity — the next account that
+// shares the array gets the previous requester's address.
+func (c *Ctx) storedListInPlace(rule string, scope func(*ssa.Function) bool) {
+	r := c.R
+	n := 0
+	var fromAccessor func(v ssa.Value) ssa.CallInstruction
+	fromAccessor = func(v ssa.Value) ssa.CallInstruction {
+		if phi, ok := v.(*ssa.Phi); ok {
+			for _, e := range phi.Edges {
+				if _, again := e.(*ssa.Phi); again {
+					continue
+				}
+				if ic := fromAccessor(e); ic != nil {
+					return ic
+				}
+			}
+			return nil
+		}
+		for d := 0; d < 4; d++ {
+			switch x := v.(type) {
+			case *ssa.Slice:
+				v = x.X
+				continue
+			case *ssa.ChangeType:
+				v = x.X
+				continue
+			}
+			break
+		}
+		ic, _ := CallOf(v)
+		if ic == nil || !ic.Common().IsInvoke() || !c.isUserType(ic.Common().Value.Type()) {
+			return nil
+		}
+		if _, isSl := v.Type().Underlying().(*types.Slice); !isSl {
+			return nil
+		}
+		return ic
+	}
+	for _, fn := range c.P.Funcs {
+		if !c.inRepo(fn) || strings.HasSuffix(pkgOf(fn), "/mocks") || (scope != nil && !scope(fn)) {
+			continue
+		}
+		for _, call := range Calls(fn) {
+			cc := call.Common()
+			dst := -1
+			what := ""
+			if b, ok := cc.Value.(*ssa.Builtin); ok && b.Name() == "append" {
+				dst, what = 0, "append"
+			} else {
+				switch gn := genericName(call); gn {
+				case "slices.Insert", "slices.Delete", "slices.Compact", "slices.CompactFunc", "slices.Sort", "slices.SortFunc", "slices.Reverse", "slices.Replace", "sort.Strings":
+					dst, what = 0, gn
+				}
+			}
+			if dst < 0 || dst >= len(cc.Args) {
+				continue
+			}
+			n++
+			if src := fromAccessor(cc.Args[dst]); src != nil {
+				r.Bad(rule, FuncName(fn), what+"("+Callee(src)+"(), …)", posf(c, call), "the list the storage layer handed out through "+Callee(src)+" is grown or edited in place: with spare capacity the write lands in the stored list's backing array, which another account's list may share")
+			}
+		}
+	}
+	r.Extra["in_place_sites"] = n
+	r.Ok(rule, "all packages", "stored lists copied before they are edited", "-", sprintf("%d append / in-place list operations examined; none has an accessor's result as its destination (violations are listed individually)", n))
 }
